@@ -97,7 +97,15 @@ def line_view(raw, term):
         ov, v, p3 = extract_double(raw, p2)
         return i, j, (v if ov else None)
     i, j, v = triple(64)
-    hl, hc, _ = triple(32)
+    # header of a sparse file, `>> unsigned nlin >> unsigned ncol`: on overflow the maximum is stored and the fail bit set
+    # (never tested by the reader); a failed nlin leaves ncol at its previous value, the token count 2
+    M32 = (1 << 32) - 1
+    oi, hv, p1 = extract_uint(raw, 0, 32)
+    if oi:
+        oj, jv, p2 = extract_uint(raw, p1, 32)
+        hl, hc = hv, (jv if oj or jv == M32 else None)
+    elif hv == M32: hl, hc = M32, 2
+    else: hl, hc = None, None
     return dict(empty=(len(raw) == 0), term=term, vals=vals, i=i, j=j, v=v, hnl=hl, hnc=hc)
 
 def split_lines(b):
